@@ -648,6 +648,51 @@ def rule_k10(repo):
     return res
 
 
+def rule_k11(repo):
+    """The dispatch table gives, for each primitive rule, the class of its argument (None: the rule takes
+    premises only).  The step checker calls `rule(args, *premises)` whenever args is not None, so whatever
+    the proof supplies as args lands in the first parameter: for a rule without argument that parameter is
+    a *premise*, and a theorem object written into the proof is used as if it had been derived.  The
+    argument must therefore be tested against the table's class before the call."""
+    res = RuleResult('C01.K11', 'the step checker tests the argument of a primitive step against the class given in the dispatch table before calling the rule', floor=1)
+    f = repo.func(THEORY, 'Theory._check_proof_item')
+    cfg = cfg_of(f.node)
+    unp = [n for n in cfg.stmt_nodes(ast.Assign) if isinstance(n.ast.value, ast.Subscript) and is_name(n.ast.value.value, 'primitive_deriv') and
+           isinstance(n.ast.targets[0], ast.Tuple) and len(n.ast.targets[0].elts) == 2]
+    need(unp, '_check_proof_item: `rule, sig = primitive_deriv[..]` not found')
+    fun_v, sig_v = [e.id if isinstance(e, ast.Name) else None for e in unp[0].ast.targets[0].elts]
+    need(fun_v, '_check_proof_item: the rule function is not bound to a name')
+    calls = [n for n in cfg.nodes if n.kind == 'stmt' and any(isinstance(c, ast.Call) and is_name(c.func, fun_v) for c in ast.walk(n.ast))]
+    need(calls, '_check_proof_item: call of the primitive rule not found')
+    seqp = f.params()[2]
+
+    def fits(e, pol):
+        # isinstance(seq.args, sig) true  /  seq.args is None true  /  seq.args is not None false
+        if isinstance(e, ast.Call) and call_name(e) == 'isinstance' and len(e.args) == 2 and path_of(e.args[0]) == seqp + '.args' and \
+                sig_v and is_name(e.args[1], sig_v):
+            return pol
+        cp = compare_parts(e)
+        if cp and path_of(cp[1]) == seqp + '.args' and isinstance(cp[2], ast.Constant) and cp[2].value is None:
+            if cp[0] is ast.Is:
+                return pol
+            if cp[0] is ast.IsNot:
+                return not pol
+        return False
+    edges = cfg.establishing_edges(fits) if sig_v and not sig_v.startswith('_') else set()
+    # the None case counts only together with a test that the table says None
+    has_sig_none = any(compare_parts(t.ast) and is_name(compare_parts(t.ast)[1], sig_v or '') and isinstance(compare_parts(t.ast)[2], ast.Constant)
+                       and compare_parts(t.ast)[2].value is None for t in cfg.test_nodes())
+    has_isinst = any(isinstance(t.ast, ast.Call) and call_name(t.ast) == 'isinstance' and len(t.ast.args) == 2 and
+                     path_of(t.ast.args[0]) == seqp + '.args' and is_name(t.ast.args[1], sig_v or '') for t in cfg.test_nodes())
+    ok = bool(edges) and has_sig_none and has_isinst and all(cfg.path_avoiding(c, skip_edges=edges, start=unp[0]) is None for c in calls)
+    res.add('%s :: Theory._check_proof_item :: argument-fits-signature' % THEORY, ok,
+            'args is None for a rule without argument, an instance of the table\'s class otherwise' if ok else
+            'the argument class of the dispatch table is not consulted before `%s(%s.args, *premises)`: for equal_elim, implies_elim, symmetric, '
+            'transitive, combination, equal_intr a Thm given as args becomes the first premise - reflexive p, then equal_elim with '
+            'args = Thm((p = p) = false) is a two-step proof of |- false' % (fun_v, seqp), f.loc)
+    return res
+
+
 def rules(repo):
     return [rule_k1(repo), rule_k2(repo), rule_k3(repo), rule_k4(repo), rule_k5(repo), rule_k6(repo),
-            rule_k8(repo), rule_k9(repo), rule_k10(repo)]
+            rule_k8(repo), rule_k9(repo), rule_k10(repo), rule_k11(repo)]
